@@ -18,6 +18,3 @@ def run(tier, rep):
         "the TLA+ reading of std::optional/variant/expected is calibrated against libstdc++ (-std=c++23) on the same scripts",
     ]
 
-
-def replay(path):
-    return sumpipe.replay(path)
